@@ -103,7 +103,22 @@ type StringLiteralExpression struct {
 
 func (self StringLiteralExpression) Kind() ExpressionKind { return StringLiteralExpressionKind }
 func (self StringLiteralExpression) Span() errors.Span    { return self.Range }
-func (self StringLiteralExpression) String() string       { return fmt.Sprintf("\"%s\"", self.Value) }
+func (self StringLiteralExpression) String() string {
+	return fmt.Sprintf("\"%s\"", EscapeString(self.Value))
+}
+
+// EscapeString renders the contents of a string literal (or of a quoted object key) so that
+// the lexer reads the same value back: the backslash first, then the quote and the
+// characters that have an escape sequence.
+func EscapeString(input string) string {
+	return strings.NewReplacer(
+		"\\", "\\\\",
+		"\"", "\\\"",
+		"\n", "\\n",
+		"\t", "\\t",
+		"\r", "\\r",
+	).Replace(input)
+}
 
 //
 // Ident expression
@@ -219,7 +234,7 @@ type ObjectLiteralField struct {
 func (self ObjectLiteralField) String() string {
 	var key string
 	if !util.IsIdent(self.Key.ident) {
-		key = fmt.Sprintf("\"%s\"", self.Key.ident)
+		key = fmt.Sprintf("\"%s\"", EscapeString(self.Key.ident))
 	} else {
 		key = self.Key.ident
 	}
